@@ -30,7 +30,7 @@ fn main() {
         std::process::exit(2);
     }
     let mut c = Check::new("C18", args.tier, "model_checking");
-    c.rule = "DFS over every sequence (bounded depth) of local operations (listen, unlisten, connect, send, recv, shutdown, force_close, update_credit, poll) and peer packets (REQUEST, RESPONSE, RST, SHUTDOWN, RW, CREDIT_UPDATE, CREDIT_REQUEST, op 0, op 9; for our cid and a foreign cid) over 2 peers x 2 local ports (alphabets 1 and 3: 56 events; the second peer differs from the first in its port only, resp. its cid only) or 1 peer x 1 port (alphabet 0: 20 events, deeper), or the listening table (alphabet 4: listen and unlisten of 3 ports in any order, connection requests to those and to a port never listened on; 10 events, deeper), or the life cycle of one connection (alphabet 5: listen, connect, send, recv, shutdown, force_close and the peer's REQUEST, RESPONSE, RST, SHUTDOWN (both hints, receive only, send only), RW in any order; 13 events, deeper), against a lock-step reference model of the connection table. distinct = distinct observation signatures".into();
+    c.rule = "DFS over every sequence (bounded depth) of local operations (listen, unlisten, connect, send, recv, shutdown, force_close, update_credit, poll) and peer packets (REQUEST, RESPONSE, RST, SHUTDOWN, RW, CREDIT_UPDATE, CREDIT_REQUEST, op 0, op 9; for our cid and a foreign cid) over 2 peers x 2 local ports (alphabets 1 and 3: 56 events; the second peer differs from the first in its port only, resp. its cid only) or 1 peer x 1 port (alphabet 0: 20 events, deeper), or the listening table (alphabet 4: listen and unlisten of 3 ports in any order, connection requests to those and to a port never listened on; 10 events, deeper), or the life cycle of one connection (alphabet 5: connect, send, recv into a 3-byte and into an exactly fitting buffer, shutdown, force_close and the peer's RESPONSE, RST, SHUTDOWN (both hints, receive only, send only), RW in any order; 12 events, deeper), against a lock-step reference model of the connection table. distinct = distinct observation signatures".into();
     for (t, d, l) in parts(args.tier) {
         let part = format!("vsock-state:{}:depth={}:alphabet={}", t.name(), d, l);
         let mut cfg = DfsConfig::new(&part, 0);
